@@ -16,6 +16,23 @@ ROOT = os.path.dirname(os.path.dirname(os.path.abspath(__file__)))
 sys.path.insert(0, ROOT)
 
 
+def _gen_in_string_view(key):
+    """Names as strings: the sort 'Node' is fixed at import time, so the key is generated in a child interpreter
+    started with PYVC_NODE=str (same contracts, same engine)."""
+    import pickle, subprocess, tempfile
+    with tempfile.NamedTemporaryFile(suffix=".pkl", dir=os.environ.get("PYVC_TMP"), delete=False) as f:
+        out = f.name
+    try:
+        p = subprocess.run([sys.executable, "-m", "pyvc.cli", "gen-one", key, "--out", out], cwd=ROOT,
+                           env=dict(os.environ, PYVC_NODE="str"), capture_output=True, text=True, timeout=900)
+        if p.returncode != 0 or not os.path.getsize(out):
+            return dict(key=key, status="crash", error=f"string-view generator failed: {p.stderr[-2000:]}")
+        with open(out, "rb") as fh:
+            return pickle.load(fh)
+    finally:
+        os.unlink(out)
+
+
 def _gen_worker(key, in_child=False):
     """Generate the obligations of one function / lemma (runs in a worker; returns picklable data)."""
     from pyvc import driver, solve
@@ -25,20 +42,7 @@ def _gen_worker(key, in_child=False):
         reg = driver.load_contracts()
         from pyvc import vals
         if reg.contracts[key].view == "string" and not vals.STRING_MODE:
-            # names as strings: the sort 'Node' is fixed at import time, so this key is generated in a child
-            # interpreter started with PYVC_NODE=str (same contracts, same engine)
-            import pickle, subprocess, tempfile
-            with tempfile.NamedTemporaryFile(suffix=".pkl", dir=os.environ.get("PYVC_TMP"), delete=False) as f:
-                out = f.name
-            try:
-                p = subprocess.run([sys.executable, "-m", "pyvc.cli", "gen-one", key, "--out", out], cwd=ROOT,
-                                   env=dict(os.environ, PYVC_NODE="str"), capture_output=True, text=True, timeout=900)
-                if p.returncode != 0 or not os.path.getsize(out):
-                    return dict(key=key, status="crash", error=f"string-view generator failed: {p.stderr[-2000:]}")
-                with open(out, "rb") as fh:
-                    return pickle.load(fh)
-            finally:
-                os.unlink(out)
+            return _gen_in_string_view(key)
         obls, info = driver.generate(reg, key)
         jobs = []
         for o in obls:
@@ -48,6 +52,14 @@ def _gen_worker(key, in_child=False):
         info["gen_s"] = round(time.time() - t0, 2)
         return dict(key=key, status="ok", info=info, jobs=jobs)
     except OutOfSubset as e:
+        from pyvc import vals
+        if "('node',)" in str(e) and not vals.STRING_MODE:
+            # the function inspects a module NAME character-wise (startswith / in / slicing ...): a flagged site (C14).
+            # Names are uninterpreted in the default view; verify this function with names as strings instead.
+            g = _gen_in_string_view(key)
+            if g.get("info") is not None:
+                g["info"]["string_view_fallback"] = str(e)
+            return g
         return dict(key=key, status="out-of-subset", error=str(e))
     except ContractDrift as e:
         return dict(key=key, status="contract-drift", error=str(e))
